@@ -57,11 +57,15 @@ func runWMPT(args []string) (map[string]any, error) {
 				h.Mode = "tlc-shared"
 			}
 			// rotate the TLC behaviours over the key universes (ranks keep their order)
-			switch (nTLC / 3) % 3 {
+			switch (nTLC / 3) % 5 {
 			case 1:
 				h.Uni, h.Sub = "head", exec.SubFor(int64(tid), 10)
 			case 2:
 				h.Uni, h.Sub = "tail", exec.SubFor(int64(tid), 10)
+			case 3:
+				h.Uni, h.Sub = "wideh", exec.SubFor(int64(tid), 10)
+			case 4:
+				h.Uni, h.Sub = "widet", exec.SubFor(int64(tid), 10)
 			}
 			exec.RunWMPT(w, in, st, tid, h)
 		}
